@@ -7,6 +7,7 @@ import (
 	"go/parser"
 	"go/token"
 	"go/types"
+	"regexp"
 	"strings"
 
 	"dstverif/load"
@@ -40,6 +41,39 @@ type mergeEval struct {
 	decs    int          // times the slot's own list was appended
 	cont    bool
 	undec   string
+	ints    map[types.Object]int64 // int locals (a line-break counter)
+}
+
+// intExpr: constants, tracked int locals, the slot's space value, + and -.
+func (m *mergeEval) intExpr(x ast.Expr) (int64, bool) {
+	x = ast.Unparen(x)
+	if tv, ok := m.info.Types[x]; ok && tv.Value != nil && tv.Value.Kind() == constant.Int {
+		return constant.Int64Val(tv.Value)
+	}
+	switch t := x.(type) {
+	case *ast.Ident:
+		if m.isV(t) && m.slot.kind == "space" {
+			return m.slot.space, true
+		}
+		v, ok := m.ints[m.info.Uses[t]]
+		return v, ok
+	case *ast.BinaryExpr:
+		a, ok1 := m.intExpr(t.X)
+		b, ok2 := m.intExpr(t.Y)
+		if ok1 && ok2 {
+			switch t.Op {
+			case token.ADD:
+				return a + b, true
+			case token.SUB:
+				return a - b, true
+			}
+		}
+	case *ast.CallExpr:
+		if tv, ok := m.info.Types[t.Fun]; ok && tv.IsType() && len(t.Args) == 1 {
+			return m.intExpr(t.Args[0])
+		}
+	}
+	return 0, false
 }
 
 func (m *mergeEval) fail(f string, a ...interface{}) {
@@ -87,6 +121,27 @@ func (m *mergeEval) boolExpr(x ast.Expr) (bool, bool) {
 		case "len(v) > 0", "len(v) != 0":
 			return !m.slot.empty, m.slot.kind == "decs"
 		}
+		switch b.Op {
+		case token.EQL, token.NEQ, token.LSS, token.GTR, token.LEQ, token.GEQ:
+			l, ok1 := m.intExpr(b.X)
+			r, ok2 := m.intExpr(b.Y)
+			if ok1 && ok2 {
+				switch b.Op {
+				case token.EQL:
+					return l == r, true
+				case token.NEQ:
+					return l != r, true
+				case token.LSS:
+					return l < r, true
+				case token.GTR:
+					return l > r, true
+				case token.LEQ:
+					return l <= r, true
+				case token.GEQ:
+					return l >= r, true
+				}
+			}
+		}
 		if b.Op == token.LOR || b.Op == token.LAND {
 			// v[len(v)-1] == "\n" || strings.HasPrefix(v[len(v)-1], "//")
 			if s == `v[len(v)-1] == "\n" || strings.HasPrefix(v[len(v)-1], "//")` || s == `strings.HasPrefix(v[len(v)-1], "//") || v[len(v)-1] == "\n"` {
@@ -123,6 +178,74 @@ func (m *mergeEval) stmt(st ast.Stmt) {
 			return
 		}
 		m.fail("%s", x.Tok)
+	case *ast.DeclStmt:
+		gd, ok := x.Decl.(*ast.GenDecl)
+		if !ok || gd.Tok != token.VAR {
+			m.fail("declaration")
+			return
+		}
+		for _, sp := range gd.Specs {
+			vs := sp.(*ast.ValueSpec)
+			for i, nm := range vs.Names {
+				o := m.info.Defs[nm]
+				if b, isB := o.Type().Underlying().(*types.Basic); !isB || b.Info()&types.IsInteger == 0 {
+					m.fail("declaration of %s", nm.Name)
+					return
+				}
+				var val int64
+				if i < len(vs.Values) {
+					var okv bool
+					if val, okv = m.intExpr(vs.Values[i]); !okv {
+						m.fail("initialiser of %s", nm.Name)
+						return
+					}
+				}
+				m.ints[o] = val
+			}
+		}
+	case *ast.IncDecStmt:
+		id, ok := x.X.(*ast.Ident)
+		if !ok {
+			m.fail("inc/dec")
+			return
+		}
+		o := m.info.Uses[id]
+		if _, tracked := m.ints[o]; !tracked {
+			m.fail("inc/dec of %s", id.Name)
+			return
+		}
+		if x.Tok == token.INC {
+			m.ints[o]++
+		} else {
+			m.ints[o]--
+		}
+	case *ast.ForStmt:
+		if x.Init != nil {
+			m.stmt(x.Init)
+		}
+		for iter := 0; ; iter++ {
+			if iter > 8 {
+				m.fail("loop does not terminate within 8 iterations")
+				return
+			}
+			if x.Cond != nil {
+				v, ok := m.boolExpr(x.Cond)
+				if !ok {
+					m.fail("loop condition %s", m.c.ExprStr(x.Cond))
+					return
+				}
+				if !v {
+					break
+				}
+			}
+			m.stmts(x.Body.List)
+			if m.undec != "" || m.cont {
+				return
+			}
+			if x.Post != nil {
+				m.stmt(x.Post)
+			}
+		}
 	case *ast.IfStmt:
 		if x.Init != nil {
 			m.fail("if with init")
@@ -156,6 +279,31 @@ func (m *mergeEval) stmt(st ast.Stmt) {
 		if x.Tok == token.DEFINE {
 			if _, inlined := m.c.Subst[m.info.Defs[lid]]; inlined {
 				return // hoisted sub-expression, seen through
+			}
+		}
+		// int locals
+		{
+			o := m.info.Uses[lid]
+			if o == nil {
+				o = m.info.Defs[lid]
+			}
+			if o != nil {
+				if b, isB := o.Type().Underlying().(*types.Basic); isB && b.Info()&types.IsInteger != 0 && b.Kind() != types.Bool {
+					val, okv := m.intExpr(x.Rhs[0])
+					if !okv {
+						m.fail("value of %s", m.c.ExprStr(x.Rhs[0]))
+						return
+					}
+					switch x.Tok {
+					case token.ASSIGN, token.DEFINE:
+						m.ints[o] = val
+					case token.ADD_ASSIGN:
+						m.ints[o] += val
+					case token.SUB_ASSIGN:
+						m.ints[o] -= val
+					}
+					return
+				}
 			}
 		}
 		switch m.info.Uses[lid] {
@@ -311,7 +459,7 @@ func (e *Env) RMerge() {
 			if arm == nil {
 				continue
 			}
-			m := &mergeEval{c: c, info: info, slot: sl, ends: ends, endsObj: endsObj, outObj: outObj, vObj: info.Implicits[arm]}
+			m := &mergeEval{c: c, info: info, slot: sl, ends: ends, endsObj: endsObj, outObj: outObj, vObj: info.Implicits[arm], ints: map[types.Object]int64{}}
 			c.ComputeSubst(arm.Body, nil)
 			m.stmts(arm.Body)
 			c.Subst = nil
@@ -364,6 +512,69 @@ func (e *Env) mergeSlots(c *schema.Ctx) {
 		return
 	}
 	info := pkg.TypesInfo
+	// the merge may live in a method that decorateSelectorExpr hands the address of the new
+	// identifier's decorations to: f.h(&out.Decs, n)
+	decsPrefix := ""
+	ast.Inspect(fd.Body, func(n ast.Node) bool {
+		call, ok := n.(*ast.CallExpr)
+		if !ok || decsPrefix != "" {
+			return true
+		}
+		fn := c.Callee(call)
+		if fn == nil || fn.Pkg() != pkg.Types {
+			return true
+		}
+		for _, a := range call.Args {
+			if u, ok := a.(*ast.UnaryExpr); ok && u.Op == token.AND && strings.HasSuffix(c.ExprStr(u.X), ".Decs") {
+				for _, d := range load.AllFuncDecls(pkg) {
+					if info.Defs[d.Name] == types.Object(fn) && d.Body != nil {
+						fd = d
+						decsPrefix = ".Decs"
+					}
+				}
+			}
+		}
+		return true
+	})
+	// single-expression helpers in a slot (f.pointDecorations(n, "Start") = f.decorations[n]["Start"])
+	inlineCall := func(text string) string {
+		x, err := parser.ParseExpr(text)
+		if err != nil {
+			return text
+		}
+		call, ok := x.(*ast.CallExpr)
+		if !ok {
+			return text
+		}
+		se, ok := call.Fun.(*ast.SelectorExpr)
+		if !ok {
+			return text
+		}
+		for _, d := range load.AllFuncDecls(pkg) {
+			if d.Name.Name != se.Sel.Name || d.Recv == nil || d.Body == nil || len(d.Body.List) != 1 {
+				continue
+			}
+			ret, ok := d.Body.List[0].(*ast.ReturnStmt)
+			if !ok || len(ret.Results) != 1 {
+				continue
+			}
+			out := types.ExprString(ret.Results[0])
+			k := 0
+			for _, p := range d.Type.Params.List {
+				for _, nm := range p.Names {
+					if k < len(call.Args) {
+						out = regexp.MustCompile(`\b`+regexp.QuoteMeta(nm.Name)+`\b`).ReplaceAllString(out, types.ExprString(call.Args[k]))
+					}
+					k++
+				}
+			}
+			if len(d.Recv.List) == 1 && len(d.Recv.List[0].Names) == 1 {
+				out = regexp.MustCompile(`\b`+regexp.QuoteMeta(d.Recv.List[0].Names[0].Name)+`\.`).ReplaceAllString(out, types.ExprString(se.X)+".")
+			}
+			return out
+		}
+		return text
+	}
 	isAppend := func(call *ast.CallExpr) bool {
 		fn := c.Callee(call)
 		return fn != nil && fn.Name() == "Append" && schema.IsMethod(fn, load.PkgDst, "Decorations", "Append") && call.Ellipsis.IsValid() && len(call.Args) == 1
@@ -453,9 +664,13 @@ func (e *Env) mergeSlots(c *schema.Ctx) {
 			if !strings.ContainsAny(sl, ".[(") {
 				slots[i] = localSrc(sl)
 			}
+			slots[i] = inlineCall(slots[i])
 		}
 		if dot := strings.Index(target, "."); dot >= 0 {
 			target = target[dot:]
+		}
+		if decsPrefix != "" && !strings.HasPrefix(target, decsPrefix) {
+			target = decsPrefix + target
 		}
 		if _, seen := got[target]; seen {
 			dup = true
@@ -530,6 +745,9 @@ func (e *Env) mergeSlots(c *schema.Ctx) {
 	ast.Inspect(fd.Body, func(n ast.Node) bool {
 		if as, ok := n.(*ast.AssignStmt); ok && len(as.Lhs) == 1 && len(as.Rhs) == 1 {
 			l := c.ExprStr(as.Lhs[0])
+			if decsPrefix != "" && (strings.HasSuffix(l, ".Before") || strings.HasSuffix(l, ".After")) && strings.Count(l, ".") == 1 {
+				l = strings.Replace(l, ".", ".Decs.", 1)
+			}
 			if strings.HasSuffix(l, ".Decs.Before") || strings.HasSuffix(l, ".Decs.After") {
 				sp[l[strings.Index(l, "."):]] = c.ExprStr(as.Rhs[0])
 			}
